@@ -53,6 +53,9 @@ prop("C04",
      # (a defect in CellType::from_u8 or Memory::write breaks C04 without touching inplace.rs)
      units=[("verus", "u7_inplace", None),
             ("verus", "u1_cell", r"fn (from_u8|into_u8|wrapping_add|from_u64|into_u64)$"),
+            # loop-free full-domain Kani twins of the conversion contracts: a verdict (with operands) when the
+            # shape-anchored Verus proof of a REWRITTEN conversion is only UNDECIDED
+            ("kani", "u1k_cell", None),
             ("kani", "u2_tape", None), ("native", "n7_inplace", None)],
      level="proof",
      technique="Verus deductive proof: lock-step simulation invariant between the real InplaceInterpreter::execute_in (extracted verbatim) and a canonical Brainfuck small-step specification",
